@@ -65,7 +65,9 @@ class ObjectPool(Generic[T]):
         obj = self.get()
         try:
             yield obj
-        except Exception:
+        except BaseException:
+            # also KeyboardInterrupt, SystemExit or a gevent-style timeout:
+            # the object must not stay checked out forever
             if not destroy_on_fail:
                 self.release(obj)
             else:
